@@ -431,6 +431,7 @@ fn run_case_inner(line: &str) -> String {
     macro_rules! by_type {
         ($f:ident, $ty:expr) => {
             match $ty {
+                "i32" => $f::<i32>(&t),
                 "i64" => $f::<i64>(&t),
                 "i128" => $f::<i128>(&t),
                 "big" => $f::<BigInt>(&t),
@@ -453,6 +454,7 @@ fn run_case_inner(line: &str) -> String {
 // ------------------------------------------------------------------------------------------------
 #[derive(Clone, Copy, PartialEq)]
 enum Ty {
+    I32,
     I64,
     I128,
     Big,
@@ -460,6 +462,7 @@ enum Ty {
 impl Ty {
     fn name(self) -> &'static str {
         match self {
+            Ty::I32 => "i32",
             Ty::I64 => "i64",
             Ty::I128 => "i128",
             Ty::Big => "big",
@@ -467,6 +470,7 @@ impl Ty {
     }
     fn bits(self) -> Option<u32> {
         match self {
+            Ty::I32 => Some(32),
             Ty::I64 => Some(64),
             Ty::I128 => Some(128),
             Ty::Big => None,
@@ -514,14 +518,20 @@ fn gen_int(r: &mut Rng, ty: Ty) -> BigInt {
             5 => sign(r, pow2(53) + k),
             6 => sign(r, pow2(63) - k.abs()),
             7 => match ty {
+                Ty::I32 => sign(r, BigInt::from(46340) + k), // floor(sqrt(2^31))
                 Ty::I64 => sign(r, BigInt::from(3037000499i64) + k), // floor(sqrt(2^63))
                 _ => sign(r, pow2(64) + k),
             },
             8 => match ty {
+                Ty::I32 => sign(r, pow2(31) - k.abs()),
                 Ty::I64 => sign(r, pow2(32) + k),
                 _ => sign(r, pow2(127) - k.abs()),
             },
             9 => match ty {
+                Ty::I32 => {
+                    let e = if r.bool() { 30 } else { 16 };
+                    sign(r, pow2(e) + k)
+                }
                 Ty::I64 => sign(r, pow2(62) + k),
                 Ty::I128 => sign(r, BigInt::from(13043817825332782212u64) + k), // floor(sqrt(2^127))
                 Ty::Big => {
@@ -540,6 +550,7 @@ fn gen_int(r: &mut Rng, ty: Ty) -> BigInt {
             }
             11 | 12 => {
                 let maxb = match ty {
+                    Ty::I32 => 31,
                     Ty::I64 => 63,
                     Ty::I128 => 127,
                     Ty::Big => 200,
@@ -579,6 +590,7 @@ fn gen_mid(r: &mut Rng, ty: Ty) -> BigInt {
         }
         _ => {
             let b = match ty {
+                Ty::I32 => 14,
                 Ty::I64 => 30,
                 Ty::I128 => 60,
                 Ty::Big => 90,
@@ -770,10 +782,20 @@ fn main() {
                 o.case(&c, &res);
             };
             let scale = |q: usize, t: usize| if thorough { t } else { q };
-            let tys = [Ty::I64, Ty::I128, Ty::Big];
+            let tys = [Ty::I32, Ty::I64, Ty::I128, Ty::Big];
 
             // 0. fixed boundary cases (corpus)
             for c in [
+                "rnew i32 -2147483648 3",
+                "rnew i32 -2147483648 -1",
+                "rnew i32 7 -2147483648",
+                "rbin i32 add 1 46341 1 46342",
+                "rbin i32 mul 46340 1 46341 1",
+                "rcmp i32 2147483647 2 2147483646 2",
+                "int i32 gcd -2147483648 0",
+                "int i32 div -2147483648 -1",
+                "int1 i32 unit -2147483648",
+                "quad i32 -1 mul 32768 1 32768 1",
                 "rnew i64 -9223372036854775808 3",
                 "rnew i64 -9223372036854775808 1",
                 "rnew i64 -9223372036854775808 -1",
@@ -823,8 +845,8 @@ fn main() {
             // 1. integers: every operator in all forms
             for &ty in &tys {
                 let n = match ty {
-                    Ty::Big => scale(1200, 8000),
-                    _ => scale(4000, 40000),
+                    Ty::Big => scale(3000, 20000),
+                    _ => scale(8000, 80000),
                 };
                 for _ in 0..n {
                     let (a, b) = match r.below(4) {
@@ -832,6 +854,7 @@ fn main() {
                             // sums / products that land next to the machine limit
                             let a = gen_int(&mut r, ty);
                             let lim = match ty {
+                                Ty::I32 => pow2(31),
                                 Ty::I64 => pow2(63),
                                 Ty::I128 => pow2(127),
                                 Ty::Big => pow2(200),
@@ -850,7 +873,7 @@ fn main() {
                     let op = *r.pick(&["add", "sub", "mul", "add", "sub", "mul", "div", "rem", "gcd", "lcm"]);
                     emit(&mut o, format!("int {} {} {} {}", ty.name(), op, a, b));
                 }
-                for _ in 0..scale(300, 2000) {
+                for _ in 0..scale(600, 4000) {
                     let a = gen_int(&mut r, ty);
                     let op = *r.pick(&["neg", "neg", "unit", "nunit", "inv", "zero"]);
                     emit(&mut o, format!("int1 {} {} {}", ty.name(), op, a));
@@ -874,8 +897,8 @@ fn main() {
             // 2. rationals
             for &ty in &tys {
                 let n = match ty {
-                    Ty::Big => scale(2500, 15000),
-                    _ => scale(9000, 80000),
+                    Ty::Big => scale(6000, 40000),
+                    _ => scale(20000, 160000),
                 };
                 for _ in 0..n {
                     let [n1, d1, n2, d2] = gen_ratio_pair(&mut r, ty);
@@ -898,8 +921,8 @@ fn main() {
                 }
                 // histories
                 let nh = match ty {
-                    Ty::Big => scale(400, 3000),
-                    _ => scale(1500, 12000),
+                    Ty::Big => scale(1000, 8000),
+                    _ => scale(4000, 30000),
                 };
                 for _ in 0..nh {
                     let c = gen_hist(&mut r, ty);
@@ -937,7 +960,7 @@ fn main() {
                 }
             }
             for &p in &FF_MODULI {
-                for _ in 0..scale(700, 6000) {
+                for _ in 0..scale(2000, 15000) {
                     let (a, b) = (gen_i32(&mut r, p), gen_i32(&mut r, p));
                     let c = match r.below(8) {
                         0 => format!("ff1 {} neg {}", p, a),
@@ -985,8 +1008,8 @@ fn main() {
             // 5. quadratic integers
             for &ty in &tys {
                 let n = match ty {
-                    Ty::Big => scale(1500, 10000),
-                    _ => scale(5000, 40000),
+                    Ty::Big => scale(4000, 25000),
+                    _ => scale(10000, 80000),
                 };
                 for _ in 0..n {
                     let d = *r.pick(&QUAD_DS);
@@ -1000,6 +1023,7 @@ fn main() {
                     if r.chance(1, 6) {
                         // products next to the machine limit: components around sqrt(limit / 2)
                         let b = match ty {
+                            Ty::I32 => 15,
                             Ty::I64 => 31,
                             Ty::I128 => 63,
                             Ty::Big => 100,
